@@ -53,7 +53,7 @@ PREBUILD = [gen_helpers]
 COARS = {0: (1, 1, 1), 1: (0, 1, 1), 2: (1, 0, 1), 3: (1, 1, 0), 4: (1, 0, 0), 5: (0, 1, 0), 6: (0, 0, 1)}
 
 
-def make_case(rng, sc, cplx, utm=None):
+def make_case(rng, sc, cplx, utm=None, aniso=None):
     import emg3d
     co = COARS[sc]
     ccells = [rng.randint(1, 2) for _ in range(3)]
@@ -76,7 +76,8 @@ def make_case(rng, sc, cplx, utm=None):
     dt = complex if cplx else float
     prop = [np.array(K.rand_arr(rng, shape, False, pos=True), float) for _ in range(4)]
     # all four anisotropy cases (the coarse model aliases eta_y/eta_z differently in each)
-    aniso = rng.randrange(4)
+    if aniso is None:
+        aniso = rng.randrange(4)
     kw = dict(property_x=prop[0], mu_r=prop[3], mapping='Conductivity')
     if aniso in (1, 3):
         kw['property_y'] = prop[1]
@@ -207,7 +208,7 @@ def correspondence(ctx):
     cases = []
     for i in range(n):
         cases.append(make_case(rng, i % 7, cplx=(i % 2 == 0) if i < 14 else rng.random() < 0.5,
-                               utm=((i // 7) % 2 == 1)))
+                               utm=((i // 7) % 2 == 1), aniso=(i + 2 * (i // 7)) % 4))
     texts, impls = [], []
     dis = []
     for i, c in enumerate(cases):
